@@ -106,7 +106,22 @@ func RunHistory(h History, mon Monitor) (*RunStats, *Trace, *pbt.Violation, erro
 	if v := mon.Init(c, w); v != nil {
 		return rs, tr, v, nil
 	}
+	// a block with Idle = n is preceded by n operation-free blocks (1 s apart, honest votes) that the monitor sees
+	// like any other block; they are only summarised in the trace
+	type step struct {
+		b    Block
+		bi   int
+		idle bool
+	}
+	var steps []step
 	for bi, b := range h.Blocks {
+		for i := 0; i < b.Idle; i++ {
+			steps = append(steps, step{b: Block{Gap: GapSpec{Kind: 2}}, bi: bi, idle: true})
+		}
+		steps = append(steps, step{b: b, bi: bi})
+	}
+	for _, stp := range steps {
+		bi, b := stp.bi, stp.b
 		w.Refresh()
 		var txs []*BuiltTx
 		for _, op := range b.Ops {
@@ -139,7 +154,12 @@ func RunHistory(h History, mon Monitor) (*RunStats, *Trace, *pbt.Violation, erro
 		rs.Blocks++
 		outs := make([]TxOutcome, 0, len(txs))
 		ri := 0
-		tr.addf("block h=%d t=%s gap=%s", br.Height, br.Time.Format("2006-01-02T15:04:05.000Z"), b.Gap.Duration())
+		if !stp.idle {
+			if b.Idle > 0 {
+				tr.addf("  (%d operation-free blocks, 1 s apart)", b.Idle)
+			}
+			tr.addf("block h=%d t=%s gap=%s", br.Height, br.Time.Format("2006-01-02T15:04:05.000Z"), b.Gap.Duration())
+		}
 		for _, t := range txs {
 			o := TxOutcome{Tx: t}
 			if t.Bytes != nil {
